@@ -18,7 +18,7 @@ use crate::operator::{
     IntoOpResult, OpError, OpRunContext, Operator, OutputList, OutputType, OutputTypeList,
     OutputTypesContext, PrepackedInput, static_dims,
 };
-use crate::ops::binary_elementwise::broadcast_shapes;
+use crate::ops::binary_elementwise::{add, broadcast_shapes};
 use crate::ops::layout::expand_to;
 use crate::shift_cast::ShiftCast;
 use crate::value::{DataType, ValueType, ValueView};
@@ -477,9 +477,24 @@ impl Operator for FusedMatMul {
             _ => None,
         };
 
-        let bias = inputs
-            .get_as::<NdTensorView<f32, 1>>(2)?
-            .map(|b| b.to_contiguous_in(ctx.pool()));
+        let a: TensorView<f32> = a;
+        let b: TensorView<f32> = b;
+        let bias = inputs.get_as::<NdTensorView<f32, 1>>(2)?;
+
+        // The bias can be added as part of the matmul if it has one element
+        // per output column. In other cases that `Add(MatMul(a, b), bias)`
+        // allows (eg. a single-element bias or a vector RHS), add the bias
+        // using broadcasting afterwards.
+        let n_cols = (b.ndim() >= 2).then(|| b.size(b.ndim() - 1));
+        if let Some(bias) = &bias
+            && Some(bias.size(0)) != n_cols
+        {
+            let product = matmul_fused(ctx.pool(), a, b, packed_b, None, self.alpha)?
+                .auto_return(ctx.pool());
+            return add(ctx.pool(), product.view(), bias.as_dyn()).into_op_result();
+        }
+
+        let bias = bias.map(|b| b.to_contiguous_in(ctx.pool()));
         let bias = bias.as_ref().map(|b| BiasVector::Row(b.data()));
 
         matmul_fused(ctx.pool(), a, b, packed_b, bias, self.alpha).into_op_result()
